@@ -64,11 +64,15 @@ fn("hypercorn.asyncio.task_group:_handle",
    props=("C05", "C16"))
 fn("hypercorn.trio.task_group:_handle",
    params=dict(HANDLE_PARAMS, app="callable{record:app_calls;raises:Exception,trio.Cancelled,BaseExceptionGroup}"),
-   raises={"trio.Cancelled": {"ensures": [("C05.handle.cancel-still-finishes", "n_emitted('send_calls') >= 1", "C05")]},
-           "BaseExceptionGroup": {"ensures": [("C05.handle.group-still-finishes", "n_emitted('send_calls') >= 1", "C05")]}},
+   # C15 "then cancels what remains ... always within graceful_timeout plus shutdown_timeout": nothing
+   # the application task does on its way out is shielded from the cancellation at the deadline
+   # (its last send(None) can wait on the application's queue for ever)
+   raises={"trio.Cancelled": {"ensures": [("C05.handle.cancel-still-finishes", "n_emitted('send_calls') >= 1", "C05"), ("C15.handle.not-shielded", "n_emitted('shielded') == 0", "C15,C16")]},
+           "BaseExceptionGroup": {"ensures": [("C05.handle.group-still-finishes", "n_emitted('send_calls') >= 1", "C05"), ("C15.handle.not-shielded", "n_emitted('shielded') == 0", "C15,C16")]}},
    ensures=[
        ("C05.handle.finishes", "n_emitted('send_calls') >= 1 and trace_all('send_calls', 'x', x is None)", "C05,C16"),
        ("C05.handle.app-once", "n_emitted('app_calls') == 1", "C05,C17,C16"),
+       ("C15.handle.not-shielded", "n_emitted('shielded') == 0", "C15,C16"),
    ],
    props=("C05", "C16"))
 
@@ -89,7 +93,7 @@ for TG in ("hypercorn.asyncio.task_group:TaskGroup", "hypercorn.trio.task_group:
                 # C08 / C16: the queue between the connection and the application holds at most
                 # max_app_queue_size messages on both workers (the reader is held back when it is full)
                 ("C16.spawn_app.bounded-queue", "n_emitted('queues') == 1 and emitted('queues')[0][1] == config.max_app_queue_size", "C16,C08")] +
-               ([("C17.call_soon.waits", "bridge_waits(local('_call_soon'))", "C17,C16")] if "asyncio" in TG else []),
+               ([("C17.call_soon.waits", "bridge_waits(local('_call_soon'))", "C17,C16,C08")] if "asyncio" in TG else []),
        props=("C16", "C01"))
 
 
